@@ -125,6 +125,11 @@ func (sh *SearchHistory) AddEntry(query string, resultsCount int, context string
 
 	sh.Entries = append(sh.Entries, entry)
 
+	// A history file can carry a nonsensical max_size; fall back to the default
+	if sh.MaxSize <= 0 {
+		sh.MaxSize = 100
+	}
+
 	// Trim to max size if needed
 	if len(sh.Entries) > sh.MaxSize {
 		sh.Entries = sh.Entries[len(sh.Entries)-sh.MaxSize:]
